@@ -736,6 +736,11 @@ func main() {
 			texts = append(texts, t)
 		}
 	}
+	for i, msg := range genInitRefused {
+		if i < 5 {
+			ctx.Failf(-1, "sdp-wellformed-format-refused-by-init", msg, "a well-formed format was refused: %s (%d such values)", msg, len(genInitRefused))
+		}
+	}
 	// the marshalled texts themselves through the text-level correspondence
 	for i, t := range texts {
 		if i%2 == 0 || ctx.Thorough {
